@@ -69,6 +69,13 @@ def catalogue(nix, np):
     add("Section.create_property", "unsupported_value_type", lambda T: T["sec"].create_property("cplx", [1 + 2j]), lambda T: T["sec"].create_property("cplx", [1.0]))
     add("Section.create_property", "empty_values", lambda T: T["sec"].create_property("novals", []), lambda T: T["sec"].create_property("novals", nix.DataType.Int64))
     add("Section.create_property", "none_value", lambda T: T["sec"].create_property("nonev", None), lambda T: T["sec"].create_property("nonev", [1]))
+    add("Section.create_property", "bool_after_ints", lambda T: T["sec"].create_property("mixed3", [1, 2, True]), lambda T: T["sec"].create_property("mixed3", [1, 2]))
+    add("Section.create_property", "int_after_bools", lambda T: T["sec"].create_property("mixed4", [True, False, 1]), lambda T: T["sec"].create_property("mixed4", [True]))
+    add("Section.create_property", "float_after_ints", lambda T: T["sec"].create_property("mixed5", [1, 2, 2.5]), lambda T: T["sec"].create_property("mixed5", [1]))
+    add("Section.create_property", "text_after_floats", lambda T: T["sec"].create_property("mixed6", (0.5, 1.5, "x")), lambda T: T["sec"].create_property("mixed6", [0.5]))
+    add("Section.__setitem__", "bool_after_ints_new", lambda T: T["sec"].__setitem__("dmix2", [1, 2, True]), lambda T: T["sec"].__setitem__("dmix2", [1]))
+    add("Property.extend_values", "bool_to_ints", lambda T: T["p_int"].extend_values([True]))
+    add("Property.extend_values", "int_to_floats", lambda T: T["p_float"].extend_values([1]))
     add("Section.__setitem__", "mixed_types_new", lambda T: T["sec"].__setitem__("dmix", [1, "a"]), lambda T: T["sec"].__setitem__("dmix", [1]))
     add("Section.__setitem__", "wrong_type_existing", lambda T: T["sec"].__setitem__("ints", ["a"]))
     # ---- data arrays ---------------------------------------------------------------------------------------
@@ -134,6 +141,12 @@ def catalogue(nix, np):
     add("RangeDimension.link_data_frame", "column_negative", lambda T: rdim(T).link_data_frame(T["df"], -1))
     add("RangeDimension(linked).link_data_array", "index_wrong_length", lambda T: T["dl"].dimensions[0].link_data_array(T["d1"], [0, -1]))
     add("RangeDimension(linked).link_data_frame", "column_out_of_range", lambda T: T["dl"].dimensions[0].link_data_frame(T["df"], 9))
+    add("RangeDimension(linked).ticks", "unordered", lambda T: setattr(T["dl"].dimensions[0], "ticks", [3.0, 1.0, 2.0, 0.5]))
+    add("RangeDimension(linked).ticks", "not_numbers", lambda T: setattr(T["dl"].dimensions[0], "ticks", ["a", "b"]))
+    add("RangeDimension(using_self).ticks", "unordered", lambda T: setattr(T["d1"].dimensions[0], "ticks", [3.0, 1.0]))
+    add("RangeDimension(linked).link_data_array", "not_an_array", lambda T: T["dl"].dimensions[0].link_data_array(T["grp"], [-1]))
+    add("SetDimension(linked).link_data_frame", "column_out_of_range", lambda T: T["ddf"].dimensions[0].link_data_frame(T["df"], 11))
+    add("SetDimension(linked).link_data_array", "index_without_minus_one", lambda T: T["ddf"].dimensions[0].link_data_array(T["d1"], [0]))
     add("RangeDimension.remove_link", "no_link", lambda T: rdim(T).remove_link())
     add("SetDimension.labels", "not_strings", lambda T: setattr(T["ds"].dimensions[0], "labels", [1, 2]))
     add("SetDimension.labels", "not_a_list", lambda T: setattr(T["ds"].dimensions[0], "labels", "ab"))
